@@ -26,13 +26,20 @@ LIVE_DTLS = ["dtls_server", "dtls_client"]
 LIVE_SCTP = ["sctp"]
 LIVE_PC = ["pc_sdp", "pc_candidate"]
 
+ALL_LIVE = LIVE_ICE + LIVE_DTLS + LIVE_SCTP + LIVE_PC + LIVE_MEDIA
+
+# passes: (label, entries, MaxFeeds, shards, simulate) - simulate = None: complete BFS of the class space (one input per
+# behaviour, every entry x phase x class); simulate = (N, depth): TLC simulation with two inputs per behaviour, every
+# out-edge of every visited state printed with its real history (sequences of inputs)
 TIERS = {
-    "quick": [("decoders", DECODERS, 1, 4), ("ice", LIVE_ICE, 1, 8), ("dtls", LIVE_DTLS, 1, 8), ("sctp", LIVE_SCTP, 1, 8),
-              ("pc", LIVE_PC, 1, 8), ("media", LIVE_MEDIA, 1, 4)],
-    "thorough": [("decoders", DECODERS, 1, 8), ("ice", LIVE_ICE, 1, 8), ("dtls", LIVE_DTLS, 1, 8), ("sctp", LIVE_SCTP, 1, 8),
-                 ("pc", LIVE_PC, 1, 8), ("media", LIVE_MEDIA, 1, 4)],
+    "quick": [("decoders", DECODERS, 1, 4, None), ("ice", LIVE_ICE, 1, 8, None), ("dtls", LIVE_DTLS, 1, 8, None),
+              ("sctp", LIVE_SCTP, 1, 8, None), ("pc", LIVE_PC, 1, 8, None), ("media", LIVE_MEDIA, 1, 4, None),
+              ("seq", ALL_LIVE, 2, 8, (6, 5))],
+    "thorough": [("decoders", DECODERS, 1, 8, None), ("ice", LIVE_ICE, 1, 8, None), ("dtls", LIVE_DTLS, 1, 8, None),
+                 ("sctp", LIVE_SCTP, 1, 8, None), ("pc", LIVE_PC, 1, 8, None), ("media", LIVE_MEDIA, 1, 4, None),
+                 ("seq", ALL_LIVE, 2, 8, (80, 6))],
 }
-VARIANTS = {"quick": 2, "thorough": 8}
+VARIANTS = {"quick": 2, "thorough": 6}
 
 OK_RES = {"value", "error"}
 SKIP_RES = {"inapplicable"}
@@ -42,7 +49,7 @@ def tla_set(xs):
     return "{" + ", ".join('"%s"' % x for x in xs) + "}"
 
 
-def write_cfg(path, entries, muts, maxfeeds, emit=True, deviations=()):
+def write_cfg(path, entries, muts, maxfeeds, emit=True, deviations=(), sim=False):
     with open(path, "w") as f:
         f.write(f"""SPECIFICATION Spec
 CONSTANTS
@@ -51,9 +58,9 @@ CONSTANTS
   MaxFeeds = {maxfeeds}
   Deviations = {tla_set(deviations)}
 VIEW view
-INVARIANTS TypeOK NoCrash InputEnabled
+INVARIANTS TypeOK NoCrash{'' if sim else ' InputEnabled'}
 PROPERTIES TotalStep
-ACTION_CONSTRAINT {'EmitCase' if emit else 'NoEmit'}
+ACTION_CONSTRAINT {('EmitCaseSim' if sim else 'EmitCase') if emit else 'NoEmit'}
 CHECK_DEADLOCK FALSE
 """)
 
@@ -110,7 +117,8 @@ def classify(ck, rows, case_rows, stats):
                 raise vlib.ToolError(f"genuine {r['tpl']} does not conform to its grammar table: {r['detail']}")
             if r["res"] != "value":
                 raise vlib.ToolError(f"genuine {r['tpl']} is not accepted by {r['entry']} {r.get('phase', '')}: {r['res']} {r['detail']}")
-            stats["templates"] += 1
+            stats["tpl_seen"].add((r["entry"], r["tpl"], r.get("phase")))
+            stats["templates"] = len(stats["tpl_seen"])
     seen = set()
     for r in rows:
         if r["type"] != "obs":
@@ -144,32 +152,66 @@ def classify(ck, rows, case_rows, stats):
 def run(tier):
     ck = vlib.Check(PID, tier, level="exploration")
     vlib.build_harness(["inputs"])
-    stats = {"templates": 0, "executed": 0, "by_res": {}, "distinct": set()}
+    stats = {"templates": 0, "executed": 0, "by_res": {}, "distinct": set(), "tpl_seen": set()}
     total_cases = 0
+    bfs_done = 0
     finished = True
-    for label, entries, maxfeeds, nshards in TIERS[tier]:
+    def generate(p):
+        label, entries, maxfeeds, nshards, sim = p
         cfg = os.path.join(vlib.SPEC, f"MC_Inputs_{tier}_{label}.gen.cfg")
-        write_cfg(cfg, entries, ALL_MUTS, maxfeeds)
+        write_cfg(cfg, entries, ALL_MUTS, maxfeeds, sim=sim is not None)
         grammar = os.path.join(ck.dir, f"grammar_{label}.ndjson")
         bounds = os.path.join(ck.dir, f"bounds_{label}.ndjson")
         cases = os.path.join(ck.dir, f"cases_{label}.ndjson")
-        res = vlib.tlc("MC_Inputs", os.path.basename(cfg), tags=("GRAMMAR", "CASE", "BOUNDS"),
-                       sinks={"GRAMMAR": grammar, "CASE": cases, "BOUNDS": bounds}, timeout=1200, tag=f"MC_Inputs_{label}")
-        os.remove(cfg)
+        try:
+            res = vlib.tlc("MC_Inputs", os.path.basename(cfg), tags=("GRAMMAR", "CASE", "BOUNDS"),
+                           sinks={"GRAMMAR": grammar, "CASE": cases, "BOUNDS": bounds}, timeout=1800,
+                           tag=f"MC_Inputs_{tier}_{label}", simulate=sim[0] if sim else None, depth=sim[1] if sim else None)
+        finally:
+            os.remove(cfg)
+        return res
+
+    # the TLC passes (single-worker emission runs) are independent: a few at a time, then the replays one after another
+    with concurrent.futures.ThreadPoolExecutor(max_workers=4) as ex:
+        results = list(ex.map(generate, TIERS[tier]))
+    for (label, entries, maxfeeds, nshards, sim), res in zip(TIERS[tier], results):
+        grammar = os.path.join(ck.dir, f"grammar_{label}.ndjson")
+        bounds = os.path.join(ck.dir, f"bounds_{label}.ndjson")
+        cases = os.path.join(ck.dir, f"cases_{label}.ndjson")
         vlib.tlc_ok(res, label)
         ck.add_tlc(res, label)
-        finished = finished and res["finished"]
+        if sim is None:
+            finished = finished and res["finished"]
         with open(grammar, "a") as g, open(bounds) as b:
             g.write(b.read())
+        if sim is not None:
+            # keep each distinct case once, and only those whose history already contains an input
+            # (single inputs are covered completely by the BFS passes)
+            seen, keep = set(), []
+            with open(cases) as f:
+                for line in f:
+                    if line in seen or '"op":"feed"' not in line:
+                        continue
+                    seen.add(line)
+                    keep.append(line)
+            with open(cases, "w") as f:
+                f.writelines(keep)
         case_rows = vlib.read_ndjson(cases)
-        total_cases += len(case_rows)
+        if sim is None:
+            total_cases += len(case_rows)
+        else:
+            stats["sequences"] = stats.get("sequences", 0) + len(case_rows)
+        before = stats["executed"] + stats["by_res"].get("inapplicable", 0)
         rows = execute(ck, label, grammar, cases, nshards, VARIANTS[tier])
         classify(ck, rows, case_rows, stats)
+        if sim is None:
+            bfs_done = stats["executed"] + stats["by_res"].get("inapplicable", 0)
     ck.cov["traces_validated_against_impl"] = stats["executed"]
     ck.cov["evaluations"] = sum(r.get("executions", 0) for r in [])
     ck.cov["evaluations"] = stats["executed"] * VARIANTS[tier]
     ck.cov["distinct_nontrivial"] = len(stats["distinct"])
-    ck.cov["exhaustive"] = finished and stats["executed"] + stats["by_res"].get("inapplicable", 0) == total_cases
+    ck.cov["exhaustive"] = finished and bfs_done == total_cases
+    ck.cov["sequence_cases"] = stats.get("sequences", 0)
     ck.cov["rule"] = ("every (entry point, connection phase, template, field, mutation) class of the Inputs model is concretised "
                       "from a genuine message located through the TLA+ grammar table and executed on the real code; a class "
                       "counts as executed when it has a concrete instance on the genuine message (others are reported as "
@@ -212,7 +254,7 @@ def replay(path):
             if all(c[k] == case[k] for k in ("entry", "phase", "tpl", "field", "mut"))]
     cases = os.path.join(ck.dir, "cases_replay.ndjson")
     vlib.write_ndjson(cases, keep)
-    stats = {"templates": 0, "executed": 0, "by_res": {}, "distinct": set()}
+    stats = {"templates": 0, "executed": 0, "by_res": {}, "distinct": set(), "tpl_seen": set()}
     rows = execute(ck, "replay", grammar, cases, 1, VARIANTS["thorough"])
     classify(ck, rows, keep, stats)
     ck.cov.update(traces_validated_against_impl=stats["executed"], evaluations=stats["executed"], samples=keep[:1],
